@@ -116,3 +116,45 @@ def frame_check(prop, tier, seed, replay=None):
                       samples=samples, trusted=['symbol-to-byte mapping and chunk-controlled reader in harness/framefam', 'TLC evaluation of spec/Framing.tla'])
     finally:
         shutil.rmtree(work, ignore_errors=True)
+
+def simple_table_check(prop, tier, seed, module, pkg, test, cfg_quick, cfg_thorough, rule, trusted, extra_env=None, replay=None):
+    t0 = time.time()
+    work = C.scratch(pkg + '_' + prop)
+    try:
+        out = os.path.join(work, 'table.json')
+        cfg = 'SPECIFICATION Spec\n' + (cfg_quick if tier == 'quick' else cfg_thorough)
+        rc, txt = C.run_tlc(work, module, cfg, workers=1, timeout=1500, env={'OUT': out}, cfgname=module + '_export.cfg')
+        if not os.path.exists(out) or 'Model checking completed' not in txt:
+            raise C.ToolError('TLC evaluation of %s failed (rc=%s):\n%s' % (module, rc, txt[-3000:]))
+        ncells = json.load(open(out)).get('ncells', 1)
+        binp = C.build_harness(pkg, work)
+        env = dict(VERIF_TABLE=out, VERIF_SEED=str(seed), VERIF_TIER=tier, VERIF_WHICH=prop)
+        if extra_env: env.update(extra_env)
+        results, crashes = run_shards(binp, test, work, C.NCPU, env, timeout=3000)
+        violations = [v for r in results for v in (r.get('violations') or []) if v['property'] == prop]
+        for c in crashes:
+            if not library_crash(c['log']):
+                raise C.ToolError('%s shard crashed outside the library: %s' % (pkg, c['log'][-1500:]))
+            violations.append(dict(property=prop, why='the library crashed the process: ' + c['log'][-900:]))
+        classes = {}
+        for r in results:
+            for k, n in (r.get('classes') or {}).items(): classes[k] = classes.get(k, 0) + n
+        samples = [s for r in results for s in (r.get('samples') or [])][:6]
+        return finish(prop, tier, seed, t0, 'model_checking', ncells, results, crashes, violations, rule=rule % dict(ncells=ncells),
+                      samples=samples, extra=dict(outcome_classes=classes), trusted=trusted)
+    finally:
+        shutil.rmtree(work, ignore_errors=True)
+
+def dispatch_check(prop, tier, seed, replay=None):
+    return simple_table_check(prop, tier, seed, 'MCDispatch', 'dispfam', 'TestDispatch', 'CONSTANTS MaxSeg = 3\n', 'CONSTANTS MaxSeg = 4\n',
+        rule='every method name of up to 3 (thorough: 4) segments over {"", rpc, RPC, rpcx, a, b, é} (plus rpc.serverInfo variants) x 4 mux shapes (Map, ServiceMap, nested ServiceMap, '
+             'prefix-related service keys) x DisableBuiltin on/off = %(ncells)d cells evaluated by TLC from spec/Dispatch.tla; each sent as a call and as a notification to a real Server whose mux is built from the '
+             'table\'s own mux description; compared: which handler ran, what it and the assigner saw through InboundRequest/ServerFromContext, the answer, Names() sorted, rpc.serverInfo contents',
+        trusted=['mux construction from the exported description and the name joiner in harness/dispfam', 'TLC evaluation of spec/Dispatch.tla'])
+
+def errors_check(prop, tier, seed, replay=None):
+    return simple_table_check(prop, tier, seed, 'MCErrors', 'errfam', 'TestErrors', 'CONSTANTS Depth = 2\n', 'CONSTANTS Depth = 3\n',
+        rule='every error tree of height <= 2 (thorough: 3) over leaves {*Error, Code.Err, value/pointer ErrCoder, context.Canceled, DeadlineExceeded, plain} and wrappers {%%w, wrapping ErrCoder, errors.Join} '
+             '= %(ncells)d trees evaluated by TLC from spec/Errors.tla (which also checks ErrorCode(FromWire(ToWire(e))) = ErrorCode(e) on the reference); each built from the real constructors, returned by a real handler '
+             'and observed through Call, CallResult, Batch and a server Callback; plus all listed and 2000 seeded int32 codes, WithData receivers and unmarshalable results',
+        trusted=['error construction from the tree description in harness/errfam', 'TLC evaluation of spec/Errors.tla'])
